@@ -226,6 +226,16 @@ func (g *gen) edge() []job {
 			}
 		}
 	}
+	// ---- W3C dates of <meta name=dcterms.created / dcterms.modified>: every numeric field x every digit-run length
+	k := 0
+	dateEdge(func(d string) {
+		add("date", "w3cdate", d, 0)
+		if k++; k%2 == 0 {
+			add("date", "metadata", metaDoc(d, "2011-04-21"), 0)
+		} else {
+			add("date", "metadata", metaDoc("x", d), 0)
+		}
+	})
 	svgDone := map[string]bool{}
 	els := make([]string, 0, len(svgElems))
 	for el := range svgElems {
